@@ -417,7 +417,13 @@ class Gen:
 
     def value(self, names: dict) -> object:
         r = self.rng("values")
-        if r.random() < self.cfg["ia_rate"]:
+        focus_data = self.cfg.get("focus") == "data"
+        if r.random() < (0.6 if focus_data else self.cfg["ia_rate"]):
+            data = [n for n, ks in names.items() if "data" in ks]
+            if data and r.random() < (0.8 if focus_data else 0.3):
+                # an initial assignment computed from a data set
+                fn = r.choice(["dsum", "dscale"])
+                return {"ia": fn, "args": [r.choice(data)] + self.arg_names(names, ARITY[fn] - 1)}
             fn = self.scalar_fn()
             return {"ia": fn, "args": self.arg_names(names, ARITY[fn])}
         return self.num()
@@ -633,6 +639,11 @@ def make_config(rng: SimRng, tier: str) -> dict:
     if not any(m in muts for m in ("add_reaction", "add_derived")):
         muts.append(r.choice(["add_reaction", "add_derived"]))
     queries = [q for q in QUERIES if r.random() < 0.75] or ["get_args_all"]
+    focus = r.choice([None, None, *KINDS])
+    if focus == "data":
+        for must in ("add_data", "update_data", "remove_data", "update_parameter", "update_variable"):
+            if must not in muts:
+                muts.append(must)
     return {
         "n_ops": n_ops,
         "pool": pool,
@@ -646,7 +657,7 @@ def make_config(rng: SimRng, tier: str) -> dict:
         "poison": r.random() < 0.4,
         "warmup": r.randint(3, 6),
         # swarm focus: ops on one kind of component dominate this run
-        "focus": r.choice([None, None, *KINDS]),
+        "focus": focus,
         "clone_rate": r.choice([0.0, 0.0, 0.05, 0.1]),
     }
 
@@ -876,7 +887,9 @@ class EditsMachine(Machine):
         r = rng("plan")
         for i in range(cfg["n_ops"]):
             snap, names = ex.snap, ex.names
-            if i < cfg["warmup"]:
+            if i == 0 and cfg.get("focus") == "data":
+                op = gen.mutator("add_data", snap, names)  # data-focused runs start with a data set
+            elif i < cfg["warmup"]:
                 kinds = [k for k in ("add_parameter", "add_variable", "add_reaction", "add_derived") if k in cfg["mutators"]]
                 op = gen.mutator(r.choice(kinds), snap, names)
             elif r.random() < cfg.get("clone_rate", 0.0):
